@@ -111,6 +111,28 @@ HARNESSES += [
 ]
 
 
+HARNESSES += [
+    {"name": "fd_in_set", "props": ["C11"], "src": "h_process_static.c", "contracts": ["public.h"],
+     "includes": ["process.posix.c"], "enforce": "fd_in_set", "defs": {"PS_fd_in_set": None}, "unwind": 8,
+     "what": "fd_in_set over a 6-entry set (the size process_start passes), loop fully unrolled"},
+    {"name": "get_max_fd", "props": ["C11", "C04"], "src": "h_process_static.c", "contracts": ["public.h"],
+     "includes": ["process.posix.c"], "enforce": "get_max_fd", "defs": {"PS_get_max_fd": None},
+     "what": "get_max_fd for every soft limit value"},
+    {"name": "process_fork_parent", "props": ["C12", "C05", "C04", "C06"], "src": "h_process_fork.c",
+     "contracts": ["public.h"], "includes": ["process.posix.c"], "enforce": "process_fork",
+     "defs": {"SIDE_PARENT": None}, "unwind": 34,
+     "what": "process_fork, parent side of fork, every OS call fallible: mask and descriptors restored on every return, "
+             "success is a live child, failure leaves no child"},
+    {"name": "process_fork_child", "props": ["C11", "C12", "C04", "C10"], "src": "h_process_fork.c",
+     "contracts": ["public.h"], "includes": ["process.posix.c"], "enforce": "process_fork",
+     "replace": ["fd_in_set"], "loop_contracts": True,
+     "defs": {"SIDE_CHILD": None, "VERIF_LOOP_CONTRACTS": None}, "unwind": 34,
+     "pre_unwind": [{"file": "process.posix.c", "text": "signal < 32; signal++", "bound": 34}],
+     "what": "process_fork, child side: signal reset loop (32, fully unrolled), close-all loop closed by a loop contract "
+             "(unbounded up to the 1 Mi cap), failures reported through the error pipe (_exit contract)"},
+]
+
+
 def api(name, props, what, **kw):
     d = {"name": "reproc_" + name, "props": props, "src": "h_api.c", "contracts": ["public.h"],
          "includes": ["reproc.c"], "enforce": "reproc_" + name, "defs": {"API_" + name: None, "VERIF_MAX_BUF": "(1ul<<40)"},
